@@ -1,5 +1,5 @@
 From Coq Require Import List Arith ZArith QArith Qcanon Bool.
-From BZ Require Import Base.Ops Base.QcInst Model.Curve Model.CurvePy Corr.Common.
+From BZ Require Import Base.Ops Base.QcInst Model.Curve Model.CurvePy Model.Triangle Model.TriElevate Corr.Common.
 Import ListNotations.
 
 (* elevate_nodes: (row, out, rel, abs); the end points must be copied exactly *)
@@ -25,3 +25,10 @@ Definition chk_full_reduce (c : list (list Q) * option (list (list Q)) * Q * Q) 
   | None, None => true
   | _, _ => false
   end.
+
+(* Triangle.elevate: (degree, row, out, rel, abs): the net must agree with the model to one rounding of the final division,
+   and the three corners (flat positions 0, d+1 and last of the new net; 0, d and last of the old) must be copied exactly *)
+Definition chk_tri_elevate (c : nat * list Q * list Q * Q * Q) : bool :=
+  let '(d, v, out, rel, abs) := c in
+  close_rel (tri_elevate QcOps d (qcs v)) out rel abs &&
+  Qeq_bool (hd 0%Q v) (hd 1%Q out) && Qeq_bool (nth d v 0%Q) (nth (S d) out 1%Q) && Qeq_bool (last v 0%Q) (last out 1%Q).
